@@ -8,8 +8,11 @@ pub mod c06;
 pub mod c07;
 pub mod c08;
 pub mod c09;
+pub mod c10;
+pub mod c12;
 pub mod c13;
 pub mod c14;
+pub mod c17;
 pub mod c18;
 pub mod c19;
 pub mod c20;
@@ -24,8 +27,11 @@ pub fn lookup(id: &str) -> Option<Property> {
         "C07" => c07::property(),
         "C08" => c08::property(),
         "C09" => c09::property(),
+        "C10" => c10::property(),
+        "C12" => c12::property(),
         "C13" => c13::property(),
         "C14" => c14::property(),
+        "C17" => c17::property(),
         "C18" => c18::property(),
         "C19" => c19::property(),
         "C20" => c20::property(),
